@@ -258,6 +258,8 @@ def expr(du, op, depth=0):
     if "const" in op:
         c = op["const"]
         if "int" in c:
+            if c.get("ty") == "bool":
+                return ("const", bool(int(c["int"])))       # (False == 0 and True == 1 still hold for rules comparing with 0 / 1)
             return ("const", int(c["int"]))
         if "float_bits" in c:
             import struct
@@ -269,6 +271,15 @@ def expr(du, op, depth=0):
             return ("const", c["str"])
         if "fn" in c:
             return ("fn", c.get("instance") or c["fn"])
+        if "promoted" in c and _FACTS is not None and depth < 20:
+            pb = _FACTS.bodies.get("%s::{promoted#%d}" % (c.get("def"), c["promoted"]))
+            if pb is not None:
+                pe = expr_place(DefUse(pb), {"local": 0, "proj": []}, depth + 1)
+                if not _has_multi(pe):
+                    return pe
+        if "value" in c:
+            import json
+            return ("const", ("__value__", json.dumps(c["value"], sort_keys=True)))     # structured constant (hashable form)
         return ("const", c.get("opaque") or c.get("ty"))
     return expr_place(du, operand_place(op), depth)
 
@@ -305,6 +316,10 @@ def expr_place(du, pl, depth=0):
                 if inner[0] == "path":
                     return ("path", inner[1], tuple(inner[2]) + npath)
                 return ("path", inner, npath)
+        if path and _FACTS is not None:
+            pe = _ctor_field(e, path)
+            if pe is not None:
+                return pe
         return e if not path else ("path", e, path)
     if r[0] == "rv":
         rv = r[1]["rv"]
@@ -321,6 +336,8 @@ def expr_place(du, pl, depth=0):
             e = ("discr", expr_place(du, rv["place"], depth + 1))
         elif k == "agg":
             e = ("agg", rv.get("agg"), tuple(expr(du, o, depth + 1) for o in rv["ops"]))
+            if rv.get("agg") == "closure":
+                e = e + (rv.get("closure"),)
             if rv.get("agg") == "adt":
                 # (.., adt name, field names, variant name) so that projections can descend by name
                 e = e + (rv.get("adt"), tuple(str(f) for f in (rv.get("fields") or [])), rv.get("variant"))
@@ -331,6 +348,55 @@ def expr_place(du, pl, depth=0):
             e = ("rv", k)
         return e if not path else ("path", e, path)
     return ("multi", r[1], _path_of(r[2]))
+
+
+_FACTS = None        # set by sq.facts.load(): lets expression trees look through crate constructors
+_CTOR_CACHE = {}
+
+
+def _ctor_field(call_e, path):
+    """`Session::start(args).args` -> `args`: a field of the struct a crate constructor returns, when that field is a shared
+    reference (immutable after construction) and the constructor sets it to a single expression over its parameters"""
+    name = call_e[1]
+    facts = _FACTS
+    cb = facts.bodies.get(name) if isinstance(name, str) else None
+    if cb is None or not path or not isinstance(path[0], str):
+        return None
+    key = (id(facts), name)
+    if key not in _CTOR_CACHE:
+        ret = None
+        try:
+            cdu = DefUse(cb)
+            ret = expr_place(cdu, {"local": 0, "proj": []})
+        except Exception:
+            ret = None
+        _CTOR_CACHE[key] = ret
+    ret = _CTOR_CACHE[key]
+    if not (isinstance(ret, tuple) and ret and ret[0] == "agg" and ret[1] == "adt" and len(ret) > 4):
+        return None
+    adt = facts.adts.get(ret[3])
+    if adt is None:
+        return None
+    fty = None
+    for f in adt["variants"][0]["fields"]:
+        if f["name"] == path[0]:
+            fty = f["ty"]
+    if fty is None or not (fty.get("k") == "ref" and not fty.get("mut")):
+        return None
+    e2, rest = project_expr(ret, (path[0],))
+    if rest or _has_multi(e2):
+        return None
+    e3 = _subst_args(e2, call_e[2])
+    rest2 = tuple(path[1:])
+    if rest2 and rest2[0] == "deref":
+        rest2 = rest2[1:]
+    if not rest2:
+        return e3
+    if e3[0] == "arg":
+        return ("arg", e3[1], tuple(e3[2]) + rest2)
+    if e3[0] == "path":
+        return ("path", e3[1], tuple(e3[2]) + rest2)
+    return ("path", e3, rest2)
 
 
 def project_expr(e, path):
